@@ -16,14 +16,16 @@ Payload == S2B("<a href=\"x\">&'b'</a>;/*{}%+ \\")
 Payload1 == S2B("O'Reilly x")
 Payload2 == S2B("say \"hi\"")
 Payload3 == S2B("safe123")
+Payload4 == S2B("+1.5e-3")          \* a string that reads as a number is still a string: + - . are significant in js, css, url
 Ctx == ("x" :> Str(Payload)) @@ ("sh" :> Safe(Str(Payload), {"html"})) @@ ("sj" :> Safe(Str(Payload), {"js"}))
-       @@ ("n" :> IntV(5)) @@ ("e" :> Str(<<>>)) @@ ("q1" :> Str(Payload1)) @@ ("q2" :> Str(Payload2)) @@ ("q3" :> Str(Payload3)) @@ ("st" :> [t |-> "gostr", s |-> Payload])   \* st: a Go fmt.Stringer
+       @@ ("n" :> IntV(5)) @@ ("e" :> Str(<<>>)) @@ ("q1" :> Str(Payload1)) @@ ("q2" :> Str(Payload2)) @@ ("q3" :> Str(Payload3)) @@ ("q4" :> Str(Payload4)) @@ ("st" :> [t |-> "gostr", s |-> Payload])   \* st: a Go fmt.Stringer
 
 Names == {"a.html", "a.js", "a.css", "a.txt", "a", "a.foo", "a.html.twig", "a.js.twig", "d.js/a", "a.url", "a.html_attr", "a.HTML", "inline",
           "a.txt.html", "a.min.js", "a.js.html", "a.html.txt.twig", "v1.2/a.css", "a.b.c.css.twig", ".js", "a."}
 Forms == {"plain", "escape", "escape-js", "escape-attr", "escape-css", "escape-url", "raw", "safe-html", "safe-js", "filtered",
           "concat", "literal", "number", "empty", "escape-raw", "tern", "stringer", "stringer-escape", "stringer-js",
-          "tern-raw-else", "tern-raw-then", "tern-esc-else", "tern-paren-raw", "tern-chain-raw", "plain-q1", "plain-q2", "plain-q3", "attr-q1"}
+          "tern-raw-else", "tern-raw-then", "tern-esc-else", "tern-paren-raw", "tern-chain-raw", "plain-q1", "plain-q2", "plain-q3", "attr-q1",
+          "plain-q4", "js-q4", "css-q4", "url-q4", "attr-q4"}
 Places == {"top", "if", "else", "for", "block", "inherited", "included", "embedded", "override", "capture", "section", "macro", "forelse"}
 
 PrintOf(form) ==
@@ -45,6 +47,9 @@ PrintOf(form) ==
     [] form = "stringer" -> PrintS(NameE("st"))
     [] form = "plain-q1" -> PrintS(NameE("q1")) [] form = "plain-q2" -> PrintS(NameE("q2")) [] form = "plain-q3" -> PrintS(NameE("q3"))
     [] form = "attr-q1" -> PrintS(Pipe(NameE("q1"), "escape", <<StrE("html_attr")>>))
+    [] form = "plain-q4" -> PrintS(NameE("q4"))
+    [] form = "js-q4" -> PrintS(Pipe(NameE("q4"), "escape", <<StrE("js")>>)) [] form = "css-q4" -> PrintS(Pipe(NameE("q4"), "escape", <<StrE("css")>>))
+    [] form = "url-q4" -> PrintS(Pipe(NameE("q4"), "escape", <<StrE("url")>>)) [] form = "attr-q4" -> PrintS(Pipe(NameE("q4"), "escape", <<StrE("html_attr")>>))
     (* conditionals with an explicit raw/escape on ONE branch; the other branch is selected *)
     [] form = "tern-raw-else" -> PrintS(Tern(BoolE(FALSE), Pipe(NameE("x"), "raw", <<>>), NameE("x")))
     [] form = "tern-raw-then" -> PrintS(Tern(BoolE(TRUE), NameE("x"), Pipe(NameE("x"), "raw", <<>>)))
@@ -76,7 +81,10 @@ Seg(form, ct) ==
     [] form = "stringer" -> E(ct, Payload)
     [] form = "plain-q1" -> E(ct, Payload1) [] form = "plain-q2" -> E(ct, Payload2) [] form = "plain-q3" -> E(ct, Payload3)
     [] form = "attr-q1" -> E("html_attr", Payload1)
-    [] form \in {"tern-raw-else", "tern-raw-then", "tern-esc-else", "tern-paren-raw", "tern-chain-raw", "plain-q1", "plain-q2", "plain-q3", "attr-q1"} -> E(ct, Payload)
+    [] form = "plain-q4" -> E(ct, Payload4) [] form = "js-q4" -> E("js", Payload4) [] form = "css-q4" -> E("css", Payload4)
+    [] form = "url-q4" -> E("url", Payload4) [] form = "attr-q4" -> E("html_attr", Payload4)
+    [] form \in {"tern-raw-else", "tern-raw-then", "tern-esc-else", "tern-paren-raw", "tern-chain-raw", "plain-q1", "plain-q2", "plain-q3", "attr-q1",
+          "plain-q4", "js-q4", "css-q4", "url-q4", "attr-q4"} -> E(ct, Payload)
     [] form = "stringer-escape" -> E("html", Payload)
     [] form = "stringer-js" -> E("js", Payload)
     [] OTHER -> E(ct, Payload)
